@@ -145,7 +145,7 @@ impl C12 {
                 ..KernelBounds::for_tier(Tier::Quick)
             }),
             thorough: KernelSpace::new(KernelBounds {
-                ctl_len: 5,
+                ctl_len: 4,
                 ..KernelBounds::for_tier(Tier::Thorough)
             }),
         }
@@ -338,7 +338,7 @@ impl Property for C12 {
     fn info(&self, tier: Tier) -> Info {
         Info {
             rule: "per program (every control-flow kernel program and skeleton, plus every 11th/5th program of the single-transfer and sequence sub-families) stateright BFS over the transition system whose transitions are the real value-analysis / ecall-termination / liveness passes applied to the finished graph; invariant: every reachable state (canonical dump of edges, six fact maps, function annotations, plus sorted diagnostics) equals the initial one; additionally a second analysis of the same program gives the same dump and every pass run stays below 4*nodes+32 sweeps. Non-trivial = programs with a label or a call".into(),
-            bounds: json!({"bfs_depth": tier.pick(3, 5), "actions": 3, "sweep_limit": "4*nodes+32", "ctl_len": tier.pick(3, 5), "parts": self.space(tier).parts}),
+            bounds: json!({"bfs_depth": tier.pick(3, 5), "actions": 3, "sweep_limit": "4*nodes+32", "ctl_len": tier.pick(3, 4), "parts": self.space(tier).parts}),
             assumptions: vec![
                 "states with equal dumps are merged: every pass is a function of exactly the dumped facts".into(),
                 "hash order is canonical (all-default schedule) in every run".into(),
